@@ -12,7 +12,7 @@ import muxcheck
 import muxgen
 
 LEVEL = "proof"
-CONE = ["Props/C14.v", "Props/C01Open.v", "Proofs/MuxTotal.v", "Proofs/MuxMoovConf.v", "Proofs/MuxOpen.v", "Model/Writer.v", "Model/WriterMoov.v", "Model/Reader.v"]
+CONE = ["Props/C14.v", "Props/C01Open.v", "Props/C13Open.v", "Proofs/MuxOpenBase.v", "Proofs/MuxTotal.v", "Proofs/MuxMoovConf.v", "Proofs/MuxOpen.v", "Model/Writer.v", "Model/WriterMoov.v", "Model/Reader.v"]
 
 
 def config_histories(tier, rng):
@@ -70,4 +70,4 @@ def check(rep):
     muxcheck.run_property(rep, "C14", CONE, hs, [muxcheck.oracle_c14],
                           "all AAC object type x frequency index x channel layout triples (thinned in the quick tier), video kinds x boundary dimensions x "
                           "parameter-set lengths {4,5,255,65535}, 25 three-letter languages x timescales x random brand lists, random multi-track histories; "
-                          "every reader accessor compared with the configuration; debug and release", modules=["C14", "C01Open"])
+                          "every reader accessor compared with the configuration; debug and release", modules=["C14", "C01Open", "C13Open"])
